@@ -101,7 +101,7 @@ type Ctx struct {
 }
 
 func (c *Ctx) ConfigureMessaging(send fbcontext.MessageFunc, ack fbcontext.MessageFunc) {}
-func (c *Ctx) ConfigureLeader(leader func() bool)                                     {}
+func (c *Ctx) ConfigureLeader(leader func() bool)                                       {}
 func (c *Ctx) SendMessage(msg fbcontext.Message) error {
 	c.mu.Lock()
 	cp := msg
